@@ -35,7 +35,8 @@ def floors(tier):
             "kind:curated": 300 if q else 5000, "edges_checked": 4000 if q else 60000, "flags_on": 300 if q else 5000,
             "edge_reason:wb": 30 if q else 400, "zero_idiom_active": 40 if q else 600, "alias_edges": 300 if q else 5000,
             "killed_candidates": 500 if q else 8000, "default_rule_forms": 100 if q else 1500, "hidden_register_operand_instances": 100 if q else 1500, "isa:x86": 1, "isa:aarch64": 1,
-            "weights_checked": 4000 if q else 60000}
+            "weights_checked": 4000 if q else 60000,
+            "sve_view_kernels_with_z": 100 if q else 1500}
 
 
 def plan(tier, seed):
@@ -240,7 +241,15 @@ def synth_case(isa, m, isa_db, vocab, by, path, ipath, mseed, kseed, R, sample=T
     from osaca.semantics import ArchSemantics, MachineModel
 
     krng = random.Random(kseed)
-    kernel_ast = D.rand_kernel(krng, isa, vocab, krng.choice([2, 3, 4, 5, 6, 8, 10, 12]))
+    n = krng.choice([2, 3, 4, 5, 6, 8, 10, 12])
+    pool = D.Pool(krng, isa)
+    if isa == "aarch64" and (kseed >> 3) & 1:
+        # every other AArch64 kernel also names vector registers by their SVE (z) and narrow scalar (b, h) views
+        pool.sve = True
+        R.count("sve_view_kernels")
+    kernel_ast = D.rand_kernel(krng, isa, vocab, n, pool=pool)
+    if getattr(pool, "sve", False) and any(" z" in i["text"] or ",z" in i["text"] for i in kernel_ast):
+        R.count("sve_view_kernels_with_z")
     flags = krng.random() < 0.5
     text = "\n".join(i["text"] for i in kernel_ast) + "\n"
     case = {"kind": "synth", "isa": isa, "model_seed": mseed, "kernel_seed": kseed, "kernel": text, "flags": flags}
